@@ -134,10 +134,18 @@ def gen_chain_rgfa(rng, n_chrom=None, scaffolds=None, id_style=None, defects=Non
         b = ChromBuilder(g, rng, ids, name, haps, len_hi)
         builders.append(b)
         k = scaffolds if scaffolds is not None else rng.choice([1, 2, 2, 3, rng.randint(3, 10), rng.randint(10, 60)])
-        es = end_style or rng.choice(["leaf", "leaf", "leafhap", "bubble"])
+        es = end_style or rng.choice(["leaf", "leaf", "leafhap", "bubble", "hapleaf"])
         # left end
-        t0 = b.ref()
-        if es == "leafhap":
+        if es == "hapleaf":  # the chain starts with a non-reference tip (a contig reaching past the reference)
+            s = b.ref()
+            h, rk = b.hap()
+            b.link(h, rng.choice("+-"), s, "+", rk)
+            t0 = None
+        else:
+            t0 = b.ref()
+        if es == "hapleaf":
+            pass
+        elif es == "leafhap":
             s = b.ref()
             h, rk = b.hap()
             b.link(t0, "+", s, "+"); b.link(t0, "+", h, "+", rk); b.link(h, "+", s, "+", rk)
@@ -151,8 +159,11 @@ def gen_chain_rgfa(rng, n_chrom=None, scaffolds=None, id_style=None, defects=Non
             s = b.bubble(s, rng.choice(kinds or BUBBLE_KINDS))
             b.scaffolds.append(s)
         # right end
-        es2 = end_style or rng.choice(["leaf", "leaf", "leafhap", "bubble"])
-        if es2 == "leafhap":
+        es2 = end_style or rng.choice(["leaf", "leaf", "leafhap", "bubble", "hapleaf"])
+        if es2 == "hapleaf":
+            h, rk = b.hap()
+            b.link(s, "+", h, rng.choice("+-"), rk)
+        elif es2 == "leafhap":
             t1 = b.ref()
             h, rk = b.hap()
             b.link(s, "+", t1, "+"); b.link(s, "+", h, "+", rk); b.link(h, "+", t1, "+", rk)
@@ -223,9 +234,11 @@ def reference_order(g, comp_nodes, contig):
                 return g.nodes[el[1]].so
             v = [g.nodes[n].so for n in el[1] if g.nodes[n].rank == 0 and g.nodes[n].contig == contig]
             return min(v) if v else None
-        first, last = minso(els[0]), minso(els[-1])
-        if first is not None and last is not None and first != last:
-            orient = "fwd" if first < last else "rev"
+        # "in order of increasing reference offset": the chain elements that have a reference offset
+        # at all (an end made of non-reference nodes only has none) decide the direction
+        cs = [c for c in map(minso, els) if c is not None]
+        if len(cs) >= 2 and cs[0] != cs[-1]:
+            orient = "fwd" if cs[0] < cs[-1] else "rev"
     if orient == "rev":
         els = els[::-1]
     out["chain"] = els
